@@ -68,8 +68,8 @@ impl Prop for PXSem {
         }
         json!({"argvs": r.execs.iter().map(|e| Value::Array(e.iter().map(|a| bytes_to_json(a)).collect())).collect::<Vec<_>>(), "exit": r.exit,
                "stdout": bytes_to_json(&r.stdout),
-               // lines of the form "COMMAND" "ARG".. on standard error: the command lines announced by -t
-               "tlines": r.stderr.split(|b| *b == b'\n').filter(|l| l.first() == Some(&b'"')).count()})
+               // lines of the form [env -i VAR="..".. ]"COMMAND" "ARG".. on standard error: the command lines announced by -t
+               "tlines": r.stderr.split(|b| *b == b'\n').filter(|l| l.first() == Some(&b'"') || l.starts_with(b"env -i ")).count()})
     }
 
     fn gen(&mut self, rng: &mut Rng, idx: usize, tier: &str) -> Value {
